@@ -35,11 +35,11 @@ def det(a: PolyLike) -> ndpoly:
     a = numpoly.aspolynomial(a)
     assert a.ndim >= 2, a
     assert a.shape[-2] == a.shape[-1], a.shape
-    # booleans and narrow integers are multiplied in the platform integer
-    # (like numpy.prod does): the determinant must not wrap around
-    dtype = numpy.prod(numpy.empty(0, dtype=a.dtype)).dtype
-    if a.dtype != dtype:
-        a = a.astype(dtype)
+    # booleans and narrow or unsigned integers are multiplied as (signed)
+    # platform integers: the determinant must not wrap around, and it may be
+    # negative also for unsigned entries
+    if a.dtype.kind in "bu" or (a.dtype.kind == "i" and a.dtype.itemsize < 8):
+        a = a.astype(numpy.int64)
     dims = a.shape[-1]
     index = (slice(None),) * (a.ndim - 2)
     if dims == 1:
